@@ -343,7 +343,7 @@ def raised(ctx, leg, case, spec, e, call):
     ctx.monitor_evals += 1
     ctx.monitor_fail(leg, case, {"raised": f"{type(e).__name__}: {e}"[:400], "call": call},
                      "no exception on a valid grid / point",
-                     f"{cls}: {call} raised {type(e).__name__} on a valid input",
+                     f"{cls}: the real code raised {type(e).__name__} on a valid input (leg {leg})",
                      key={"grid_class": cls, "leg": leg, "symptom": f"raised-{type(e).__name__}"})
 
 
@@ -1315,7 +1315,8 @@ def leg_distance(ctx, P, spec, rng, force=None):
             dist = np.array(g.distance(_cp(a1), _cp(a2), **kw), dtype=float)
             dist_rev = np.array(g.distance(_cp(a2), _cp(a1), **kw), dtype=float)
             # the same points as floats: tells a failure that is specific to integer-typed points
-            dv_float = np.array(g.difference_vector(f1.copy(), f2.copy(), **kw), dtype=float) if int_pts else None
+            dv_float = np.array(g.difference_vector(np.array(a1, dtype=float), np.array(a2, dtype=float), **kw),
+                                dtype=float) if int_pts else None
         except Exception as e:  # noqa: BLE001
             ctx.count(case, nontrivial=False, leg="distance")
             raised(ctx, "distance", case, spec, e, f"grid.difference_vector / distance(p1, p2, {kw})")
@@ -1740,9 +1741,7 @@ def leg_coordmaps(ctx, P, rng, n, force=None):
                 bad = f"pos_to_cart(pos_from_cart(x)) = {again.tolist()} != x = {cart.tolist()}"
             # |det J| is the volume factor: r (polar, cylindrical), r^2 sin(theta) (spherical)
             vsc = sr * sr if name == "spherical" else sr
-            # (the determinant is formed from entries of size 1 and r: products up to r^2 cancel)
-            det = float(np.linalg.det(jac / np.where(np.abs(jac).max(axis=0) > 0, np.abs(jac).max(axis=0), 1.0))
-                        * np.prod(np.where(np.abs(jac).max(axis=0) > 0, np.abs(jac).max(axis=0), 1.0)))
+            det = float(np.linalg.det(jac))
             if not (abs(abs(det) - abs(volf)) <= 1e-11 * vsc):
                 bad = f"|det(jacobian)| = {abs(det)!r} != volume_factor = {volf!r}"
         if bad:
@@ -1837,6 +1836,11 @@ def run(ctx):
     P.run()
 
 
+def paths_repo():
+    from harness.common import paths
+    return paths.REPO
+
+
 def _from_real_code(e):
     """True if the exception was raised while the real code was executing: below the deepest
     harness frame of the traceback there is a frame of the package under verification (the
@@ -1866,7 +1870,8 @@ def _guard(ctx, leg, spec, fn):
         cur = _CUR["case"]
         case = cur if isinstance(cur, dict) and cur.get("leg") == leg else {"leg": leg, "grid": spec, "sub": "crash"}
         ctx.count(case, nontrivial=False, leg="crash")
-        where = next((f"{fr_.filename}:{fr_.lineno}" for fr_ in reversed(tb) if "harness" not in fr_.filename), "?")
+        repo = os.path.realpath(paths_repo()) + os.sep
+        where = next((f"{fr_.filename}:{fr_.lineno}" for fr_ in reversed(tb) if os.path.realpath(fr_.filename).startswith(repo)), "?")
         raised(ctx, leg, case, spec if isinstance(spec, dict) else None, e, f"leg {leg} at {where}")
         return False
 
